@@ -91,9 +91,9 @@ func Load(repoDir string) (*Program, error) {
 	}
 	sort.Slice(p.Pkgs, func(i, j int) bool { return p.Pkgs[i].PkgPath < p.Pkgs[j].PkgPath })
 	packages.Visit(pkgs, nil, func(q *packages.Package) { p.ByPath[q.PkgPath] = q })
-	for i, sp := range spkgs {
+	for _, sp := range spkgs {
 		if sp != nil {
-			p.SSA[pkgs[i].PkgPath] = sp
+			p.SSA[sp.Pkg.Path()] = sp
 		}
 	}
 	for _, sp := range prog.AllPackages() {
